@@ -37,6 +37,14 @@ extern "C" void m_solver_ctor(Solver* self, Solver::Type t, Solver::Representati
    new(static_cast<SPxLPBase<double>*>(self)) LP();
    new(static_cast<Basis*>(self)) Basis(tt);
 }
+// key lookup of the row/column sets: the "invalid key" exception of the real function becomes an assertion (the exception path
+// - string construction, stack unwinding through all destructors - is very expensive to encode and is not the subject here)
+typedef ClassSet<SVSetBase<double>::DLPSV> KeySet;
+extern "C" int m_keyset_number(const KeySet* self, const DataKey& k)
+{
+   vp_assert(k.idx >= 0 && k.idx < self->size(), 90);
+   return self->theitem[k.idx].info;
+}
 union SolverMem { TS s; SolverMem() {} ~SolverMem() {} };
 static SolverMem mem;
 union OutMem { SPxOut o; OutMem() {} ~OutMem() {} };
